@@ -201,7 +201,9 @@ class IsotropicSolidAngle(BaseProposal):
         original z-axis) such that it now coincides with the vector ``mu``.
         """
         beta = numpy.arccos(mu[2])
-        gamma = numpy.arccos(mu[0] / numpy.sqrt(mu[0]**2 + mu[1]**2))
+        rho = numpy.sqrt(mu[0]**2 + mu[1]**2)
+        # at the poles the azimuth is arbitrary (and mu[0] / rho is 0 / 0)
+        gamma = numpy.arccos(mu[0] / rho) if rho > 0 else 0.
         # arccos is from 0 to pi but we want the rotation from 0 to 2pi
         if mu[1] < 0:
             gamma = 2 * numpy.pi - gamma
